@@ -136,13 +136,20 @@ def run(repo, rep, tier):
     for n in g.nodes:
         if n.kind == "test":
             t = ast.unparse(n.ast).replace(" ", "")
-            ret = [g.nodes[s] for lab, s in n.succ if lab == "T"]
-            r0 = ret[0] if ret else None
-            hops = 0
-            while r0 is not None and not (r0.kind == "stmt" and isinstance(r0.ast, ast.Return)) and hops < 20:
-                nxt = [g.nodes[s] for lab, s in r0.succ if lab == "next"]
-                r0 = nxt[0] if len(nxt) == 1 and r0.kind == "stmt" else None
-                hops += 1
+            # the return(s) this test selects: reachable from its T edge and not from its F edge
+            def reach(lab0):
+                seen, work = set(), [s for lab, s in n.succ if lab == lab0]
+                while work:
+                    x = work.pop()
+                    if x in seen:
+                        continue
+                    seen.add(x)
+                    work += [s2 for _, s2 in g.nodes[x].succ]
+                return seen
+            rt, rf = reach("T"), reach("F")
+            sel = [g.nodes[x] for x in sorted(rt - rf) if g.nodes[x].kind == "stmt" and isinstance(g.nodes[x].ast, ast.Return)
+                   and isinstance(g.nodes[x].ast.value, ast.Tuple)]
+            r0 = sel[0] if sel else None
             if r0 is None:
                 continue
             callee = ast.unparse(r0.ast.value.elts[0]) if isinstance(r0.ast.value, ast.Tuple) and r0.ast.value.elts else None
@@ -182,19 +189,31 @@ def run(repo, rep, tier):
             ok = init_attrs <= sets
             # the class and the name travel in the reduce tuple
             tup = r0.ast.value.elts[1] if len(r0.ast.value.elts) > 1 else None
+            if isinstance(tup, ast.Name):
+                defs = [x.value for x in walk_local_stmt(red.node) if isinstance(x, ast.Assign) and any(
+                    isinstance(t, ast.Name) and t.id == tup.id for t in x.targets)]
+                if len(defs) == 1:
+                    tup = defs[0]                # `args = (...)` ; `return (deserializeFunction, args)`
             args = [ast.unparse(x) for x in tup.elts] if isinstance(tup, ast.Tuple) else []
             # positional agreement: a deserializer parameter named like a function attribute (__code__, __defaults__, ...)
             # must receive that very attribute of self.expr
             if isinstance(tup, ast.Tuple):
                 for pname, argx in zip(f.params, tup.elts):
                     if pname.startswith("__") and pname.endswith("__"):
-                        src = argx
-                        if isinstance(argx, ast.Name):
-                            defs = [x.value for x in walk_local_stmt(red.node) if isinstance(x, ast.Assign) and any(
-                                isinstance(t, ast.Name) and t.id == argx.id for t in x.targets)]
-                            if len(defs) == 1:
-                                src = defs[0]        # a temporary such as `payload = marshal.dumps(expr.__code__)`
-                        attrs = {a.attr for a in ast.walk(src) if isinstance(a, ast.Attribute)}
+                        # temporaries such as `code = expr.__code__` ; `payload = marshal.dumps(code)` stand for their one definition
+                        attrs = set()
+                        work, seen_names = [argx], set()
+                        while work:
+                            e = work.pop()
+                            for a in ast.walk(e):
+                                if isinstance(a, ast.Attribute):
+                                    attrs.add(a.attr)
+                                elif isinstance(a, ast.Name) and a.id not in seen_names:
+                                    seen_names.add(a.id)
+                                    defs = [x.value for x in walk_local_stmt(red.node) if isinstance(x, ast.Assign) and any(
+                                        isinstance(t, ast.Name) and t.id == a.id for t in x.targets)]
+                                    if len(defs) == 1:
+                                        work.append(defs[0])
                         good = pname in attrs
                         r2.ob(good, f"__reduce__ ({kind}): parameter {pname} of {callee} <- {ast.unparse(argx)[:40]}")
                         if not good:
